@@ -851,3 +851,16 @@ func posOf(in ssa.Instruction) token.Pos {
 	}
 	return in.Parent().Pos()
 }
+
+// margs returns the logical method arguments of a call (without the receiver),
+// for static method calls and interface invokes alike.
+func margs(c ssa.CallInstruction) []ssa.Value {
+	cc := c.Common()
+	if cc.IsInvoke() {
+		return cc.Args
+	}
+	if f := cc.StaticCallee(); f != nil && f.Signature.Recv() != nil && len(cc.Args) > 0 {
+		return cc.Args[1:]
+	}
+	return cc.Args
+}
